@@ -271,6 +271,39 @@ pub(crate) fn sharp_turn_or_curve_at(spec: &PathSpec, p: Point) -> bool {
     false
 }
 
+/// cross product of the (normalised) arriving and leaving directions at the join located at p (polyline joins only)
+pub(crate) fn turn_cross_at(spec: &PathSpec, p: Point) -> Option<f32> {
+    for s in &spec.subs {
+        let mut pts = vec![s.start];
+        for g in &s.segs {
+            match g {
+                Seg::Line(q, _) => {
+                    if *q != *pts.last().unwrap() {
+                        pts.push(*q);
+                    }
+                }
+                _ => return None,
+            }
+        }
+        let n = pts.len();
+        for i in 0..n {
+            if pts[i] != p {
+                continue;
+            }
+            let (prev, next) = if i > 0 && i + 1 < n {
+                (pts[i - 1], pts[i + 1])
+            } else if s.close && n > 2 {
+                (pts[(i + n - 1) % n], pts[(i + 1) % n])
+            } else {
+                continue;
+            };
+            let (a, b) = ((p - prev).normalize(), (next - p).normalize());
+            return Some(a.cross(b));
+        }
+    }
+    None
+}
+
 fn structured(k: u64, r: &mut Rng) -> PathSpec {
     let pl = |pts: Vec<(f32, f32)>, close: bool| PathSpec::from_polylines(&[pts], &[close]);
     match k % 12 {
@@ -432,7 +465,9 @@ pub fn main(args: &Args) -> std::io::Result<()> {
                 worst_reach = worst_reach.max((d - cfg.tol as f64 - 4.0 * ulp) / hw.max(1e-9));
                 if d > allowed {
                     let mut f = vec![("what", jstr("a stroke vertex is farther from the path than the join / cap reach")), ("input", jstr(&format!("distance {:.5} allowed {:.5} :: {}", d, allowed, vl())))];
-                    if cfg.var_width && sharp_turn_or_curve_at(&spec, v.on_path) {
+                    // K13: on a tight curve, or at a join where the path doubles back (within 3 degrees of a half turn);
+                    // sharp but definite turns of a polyline are handled by the fold test of the join code and are in scope
+                    if cfg.var_width && sharp_turn_or_curve_at(&spec, v.on_path) && turn_cross_at(&spec, v.on_path).map_or(true, |c| c.abs() < 0.05) {
                         f.push(("class", jstr("K13")));
                     }
                     st.fail(jobj(&f));
